@@ -122,5 +122,5 @@ func checkNoUnorderedEncoding(p *Prog, r *Report, kp func(string, string) string
 	if bad == 0 {
 		r.OK(kp("ORDER", "unordered-encoding#none"), rule, "x/*", fmt.Sprintf("%d binary marshalling calls in scope, none on a message type that reaches a map field", n))
 	}
-	r.Floor("binary-marshal-calls-in-consensus-scope", n, 5)
+	r.Floor("binary-marshal-calls-in-consensus-scope", n, 1)
 }
